@@ -257,11 +257,9 @@ func (k Key) String() string {
 		}
 		return fmt.Sprintf("Ctrl+%c", val)
 	case k.Keycode <= unicode.MaxRune:
-		if k.Modifiers&ModCapsLock != 0 {
-			buf.WriteRune(unicode.ToUpper(k.Keycode))
-		} else {
-			buf.WriteRune(k.Keycode)
-		}
+		// Caps Lock is not part of the description: it is removed before
+		// matching, so the chord has to match what is written here
+		buf.WriteRune(k.Keycode)
 	}
 
 	for _, kn := range keyNames {
